@@ -10,6 +10,24 @@ from extract import *
 
 SHORT = 'receive'
 
+PADSPEC = '''
+// bytes k..e of `plain` are a Part 6 padding: e - k bytes (1..=256), each holding e - k - 1 (the count of bytes that
+// follow the size byte; the size byte itself is the first of them and has the same value)
+pub open spec fn is_padding(plain: Seq<u8>, k: int, e: int) -> bool {
+    &&& 0 <= k < e <= plain.len()
+    &&& e - k <= 256
+    &&& forall|i: int| k <= i < e ==> plain[i] == (e - k - 1) as u8
+}
+// the same with the extra padding size byte used for keys longer than 2048 bits: e - k - 2 is a 16-bit number whose
+// low byte fills bytes k..e-1 and whose high byte is byte e-1
+pub open spec fn is_padding2(plain: Seq<u8>, k: int, e: int) -> bool {
+    &&& 0 <= k && k + 2 <= e <= plain.len()
+    &&& e - k - 2 <= 0xffff
+    &&& forall|i: int| k <= i < e - 1 ==> plain[i] as int == (e - k - 2) % 256
+    &&& plain[e - 1] as int == (e - k - 2) / 256
+}
+'''
+
 ENV = '''
 use std::ops::Range;
 pub assume_specification<T: Clone> [<[T]>::to_vec] (s: &[T]) -> (r: Vec<T>) ensures r@ == s@;
@@ -126,7 +144,7 @@ pub open spec fn secured_mode(m: MessageSecurityMode) -> bool { m == MessageSecu
 pub open spec fn keys_ready(c: &SecureChannel) -> bool {
     (c.security_policy != SecurityPolicy::None && secured_mode(c.security_mode)) ==> (supported(c.security_policy) && c.remote_keys is Some)
 }
-// the chunk bytes with the 32-bit little-endian size field (bytes 4..8) rewritten: what update_message_size produces
+PADSPEC// the chunk bytes with the 32-bit little-endian size field (bytes 4..8) rewritten: what update_message_size produces
 pub mod axs { use vstd::prelude::*; verus! {
 pub uninterp spec fn spec_with_size(data: Seq<u8>, size: nat) -> Seq<u8>;
 #[verifier::external_body]
@@ -135,7 +153,7 @@ pub broadcast proof fn axiom_with_size_len(data: Seq<u8>, size: nat)
 {}
 } }
 pub use axs::spec_with_size;
-'''
+'''.replace('PADSPEC', PADSPEC)
 
 ENV_FNS = '''
 impl SecureChannel {
@@ -177,7 +195,8 @@ TOTAL = {
             r is Ok ==> r->Ok_0 == src@.len(),
             MAC_CLAUSE'''),
     'verify_padding': ('r', '''        requires padding_end <= src@.len(),
-        ensures r is Ok ==> r->Ok_0.start <= r->Ok_0.end && r->Ok_0.end == padding_end,'''),
+        ensures r is Ok ==> r->Ok_0.start <= r->Ok_0.end && r->Ok_0.end == padding_end,
+            PADV_CLAUSE'''),
     'asymmetric_decrypt_and_verify': ('r', '''        requires
             encrypted_range.start <= encrypted_range.end, encrypted_range.end == src@.len(), old(dst)@.len() == src@.len(),
         ensures
@@ -213,16 +232,49 @@ RSA_CLAUSE = '''// C08 (OPN): accepted => the RSA signature was verified with th
             // before the signature, and the padding between body and signature was checked
             r is Ok ==> (exists|a: int, b: int| 0 <= a <= b <= final(dst)@.len() && r->Ok_0 <= a
                 && spec_rsa_sig_ok(security_policy, *verification_key, final(dst)@.subrange(0, a), final(dst)@.subrange(a, b))),'''
-TOP_CLAUSE = '''// C08: on a secured channel a delivered MSG/CLO chunk is the MAC-verified prefix with only its size field rewritten
+PADV_CLAUSE = '''// the range is exactly the padding the size field(s) in front of `padding_end` announce, and every padding
+            // byte was compared with the size byte (Part 6 6.7.2.5)
+            (r is Ok && key_size <= 256) ==> is_padding(src@, r->Ok_0.start as int, padding_end as int),
+            (r is Ok && key_size > 256) ==> is_padding2(src@, r->Ok_0.start as int, padding_end as int),'''
+TOP_CLAUSE = '''// C08: on a secured channel a delivered MSG/CLO chunk is a prefix of the MAC-verified bytes with only its size field
+            // rewritten (in Sign mode the verified bytes are the received bytes themselves)
             (r is Ok && old(self).security_policy != SecurityPolicy::None && secured_mode(old(self).security_mode)
                 && !spec_is_opn(src@)) ==> ({
                 let n = src@.len() as int;
                 let s = sig_len(old(self).security_policy);
-                exists|plain: Seq<u8>| plain.len() == n
-                    && #[trigger] spec_mac_ok(old(self).security_policy, old(self).remote_keys->Some_0.0@, plain.subrange(0, n - s), plain.subrange(n - s, n))
-                    && r->Ok_0.data@ == spec_with_size(plain, (n - s) as nat).subrange(0, n - s)
-                    && (old(self).security_mode == MessageSecurityMode::Sign ==> plain == src@)
+                exists|plain: Seq<u8>, k: nat|
+                    #![trigger spec_mac_ok(old(self).security_policy, old(self).remote_keys->Some_0.0@, plain.subrange(0, n - s), plain.subrange(n - s, n)), spec_with_size(plain, k)]
+                    plain.len() == n && k <= n - s
+                    && spec_mac_ok(old(self).security_policy, old(self).remote_keys->Some_0.0@, plain.subrange(0, n - s), plain.subrange(n - s, n))
+                    && r->Ok_0.data@ == spec_with_size(plain, k).subrange(0, k as int)
+                    && (old(self).security_mode == MessageSecurityMode::Sign ==> plain == src@)PAD_TOP
             }),'''
+# C07 (variant 'pad'): what is cut off besides the signature is exactly a well-formed padding (SignAndEncrypt) or nothing (Sign)
+PAD_TOP = '''
+                    && (old(self).security_mode == MessageSecurityMode::Sign ==> k == n - s)
+                    && (old(self).security_mode == MessageSecurityMode::SignAndEncrypt ==> is_padding(plain, k as int, n - s))'''
+PAD_LEMMAS = '''
+// C07 receive half, over the two contracts: the sender (add_space_for_padding_and_signature, unit c07_send) produces
+//   data ++ pad bytes each holding pad - 1 ++ signature      with pad = spec_pad >= 1 when encrypting, 0 otherwise;
+// the receiver (contract above) delivers the first k bytes where bytes k..n-s are a well-formed padding. Then k is
+// the length of the sender's chunk: exactly the padding is removed, whatever the body's own last bytes are.
+proof fn lemma_receiver_removes_exactly_the_senders_padding(data: Seq<u8>, pad: nat, sig: Seq<u8>, k: nat)
+    requires 1 <= pad <= 256,
+        is_padding(data + Seq::new(pad, |i: int| (pad - 1) as u8) + sig, k as int, (data.len() + pad) as int),
+    ensures k == data.len(),
+{
+    let plain = data + Seq::new(pad, |i: int| (pad - 1) as u8) + sig;
+    let e = (data.len() + pad) as int;
+    assert(plain[e - 1] == (pad - 1) as u8);
+    assert(plain[e - 1] == (e - k - 1) as u8);
+}
+// and the sender's padding is a well-formed padding for the receiver
+proof fn lemma_senders_padding_is_well_formed(data: Seq<u8>, pad: nat, sig: Seq<u8>)
+    requires 1 <= pad <= 256,
+    ensures is_padding(data + Seq::new(pad, |i: int| (pad - 1) as u8) + sig, data.len() as int, (data.len() + pad) as int),
+{
+}
+'''
 
 
 def build_variant(manifest, variant, pid):
@@ -241,9 +293,11 @@ def build_variant(manifest, variant, pid):
     spec = {}
     for k, (rn, cl) in TOTAL.items():
         if variant == 'mac':
-            cl = cl.replace('MAC_CLAUSE', MAC_CLAUSE).replace('RSA_CLAUSE', RSA_CLAUSE).replace('TOP_CLAUSE', TOP_CLAUSE)
+            cl = cl.replace('MAC_CLAUSE', MAC_CLAUSE).replace('RSA_CLAUSE', RSA_CLAUSE).replace('TOP_CLAUSE', TOP_CLAUSE.replace('PAD_TOP', '')).replace('PADV_CLAUSE', 'true,')
+        elif variant == 'pad':
+            cl = cl.replace('MAC_CLAUSE', MAC_CLAUSE).replace('RSA_CLAUSE', 'true,').replace('TOP_CLAUSE', TOP_CLAUSE.replace('PAD_TOP', PAD_TOP)).replace('PADV_CLAUSE', PADV_CLAUSE)
         else:
-            cl = cl.replace('MAC_CLAUSE', 'true,').replace('RSA_CLAUSE', 'true,').replace('TOP_CLAUSE', 'true,')
+            cl = cl.replace('MAC_CLAUSE', 'true,').replace('RSA_CLAUSE', 'true,').replace('TOP_CLAUSE', 'true,').replace('PADV_CLAUSE', 'true,')
         spec[k] = (rn, cl)
     fns = {}
     for n in ['symmetric_signature_size', 'is_supported']:
@@ -265,7 +319,20 @@ def build_variant(manifest, variant, pid):
     # (applied where the pattern occurs; a different way of comparing is left to Verus as written)
     fns['asymmetric_decrypt_and_verify'] = f.replace('our_thumbprint.value() != receiver_thumbprint.as_ref()', 'slices_differ(our_thumbprint.value(), receiver_thumbprint.as_ref())')
     fns['verify_padding'] = splice_at(fns['verify_padding'], r'^\s*let padding_size = \(\(extra_padding_byte as usize\) << 8\)',
-        '            proof { assert(((extra_padding_byte as usize) << 8) <= 0xff00) by (bit_vector); }', before=True)
+        '            proof { let x = extra_padding_byte as usize; assert(x << 8 == x * 256) by (bit_vector) requires x <= 255; }', before=True)
+    # ghost hints tying the checked slice to the bytes of `src` (one per arm, in front of the arm's result expression)
+    fns['verify_padding'] = splice_at(fns['verify_padding'], r'^\s*padding_range\s*$', '''            proof {
+                let k = padding_range.start as int;
+                let e = padding_end as int;
+                let sl = src@.subrange(k, e - 1);
+                assert forall|i: int| k <= i < e - 1 implies src@[i] as int == (e - k - 2) % 256 by { assert(src@[i] == sl[i - k]); }
+            }''', before=True, occurrence=0)
+    fns['verify_padding'] = splice_at(fns['verify_padding'], r'^\s*padding_range\s*$', '''            proof {
+                let k = padding_range.start as int;
+                let e = padding_end as int;
+                let sl = src@.subrange(k, e);
+                assert forall|i: int| k <= i < e implies src@[i] == (e - k - 1) as u8 by { assert(src@[i] == sl[i - k]); }
+            }''', before=True, occurrence=1)
     a = Asm()
     a.add('use vstd::prelude::*;\nverus! {\nglobal size_of usize == 8;\n', 'prelude', 'env')
     a.add(norm_vis(types), 'types', 'env')
@@ -289,13 +356,15 @@ proof fn canary_receive_pre(c: &SecureChannel, src: Seq<u8>)
     ensures false,
 {}
 ''', 'canary')
+    if variant == 'pad':
+        add_proof_fns(a, PAD_LEMMAS, 'lemma')
     a.add('}\nfn main() {}\n')
-    d = dict(asm=a, pid=pid, short=SHORT + ('_mac' if variant == 'mac' else ''), clauses={k: v[1] for k, v in spec.items()},
+    d = dict(asm=a, pid=pid, short=SHORT + {'mac': '_mac', 'pad': '_pad'}.get(variant, ''), clauses={k: v[1] for k, v in spec.items()},
              twins={}, witness={},
              assumptions=['%s: callers hold keys_ready (a policy/mode other than None is only in force once derive_keys has run) '
                           'and never use MessageSecurityMode::Invalid' % pid,
                           '%s: HMAC / RSA signature verification and AES / RSA decryption are OpenSSL: verify functions return Ok only '
                           'for a valid MAC/signature (unforgeability assumed), AES-CBC without padding preserves length' % pid])
-    if variant == 'mac':
+    if variant in ('mac', 'pad'):
         d['only_kinds'] = r'postcondition not satisfied|precondition not satisfied'
     return d
